@@ -415,6 +415,113 @@ impl Site {
     }
 }
 
+
+/// sites OFF the round-number lattices used elsewhere: fractional latitudes, longitudes and
+/// elevations, quarter- and half-hour zones that do not match the longitude, zone offsets with seconds. A change that only
+/// shows between lattice points (a truncation, a band limit, a term that vanishes at round values)
+/// is exercised here. `max_lat`: largest |latitude| the caller's property admits.
+pub fn off_lattice_sites(quick: bool, max_lat: f64) -> Vec<Site> {
+    let all = [
+        Site::new(47.3137, 8.5417, 408.3, 1.0),
+        // zone offsets that are not a whole number of minutes (local mean time of the meridian, arbitrary reals)
+        Site::new(21.4225, 39.8262, 277.0, 39.8262 / 15.0),
+        Site::new(-52.8, -68.3113, 123.4, -3.0),
+        Site::new(40.7128, -74.006, 10.0, -4.93389),
+        Site::new(27.7172, 85.324, 1400.0, 5.75),
+        Site::new(-33.8688, 151.2093, 58.0, 10.0),
+        Site::new(59.437, 24.7536, 9.0, 2.0),
+        Site::new(5.3712, 100.2704, 7.1, 8.0),
+        Site::new(-0.1807, -78.4678, 2850.0, -5.0),
+        Site::new(21.4225, 39.8262, 277.0, 3.0),
+        Site::new(-17.7863, -63.1812, 416.5, -4.0),
+        Site::new(35.6892, 51.389, 1189.0, 3.5),
+        Site::new(64.1466, -21.9426, 15.0, 0.0),
+        Site::new(-54.8019, -68.303, 23.0, -3.0),
+        Site::new(69.6492, 18.9553, 10.0, 1.0),
+        Site::new(12.9716, 77.5946, 920.0, 5.5),
+    ];
+    let n = if quick { 8 } else { all.len() };
+    all.iter().cloned().filter(|s| s.lat.abs() <= max_lat).take(n).collect()
+}
+
+
+// ---------------------------------------------------------------------------------------------
+// frontier refinement: where a lattice cannot reach (a decision that flips between two adjacent
+// floating-point values), bisect down to the two adjacent f64s and enumerate their neighbourhood
+
+/// order-preserving map of the finite f64s onto i64 (and back)
+pub fn f_ord(x: f64) -> i64 {
+    let b = x.to_bits() as i64;
+    b ^ ((((b >> 63) as u64) >> 1) as i64)
+}
+pub fn f_from_ord(o: i64) -> f64 {
+    f64::from_bits((o ^ ((((o >> 63) as u64) >> 1) as i64)) as u64)
+}
+/// `pred(lo) != pred(hi)` required (else None). Returns adjacent f64s (a, b), a < b, with pred(a) == pred(lo)
+/// and pred(b) == pred(hi), and every value probed on the way (at most 64 + 2).
+pub fn bisect_flip(lo: f64, hi: f64, mut pred: impl FnMut(f64) -> bool) -> Option<(f64, f64, Vec<f64>)> {
+    let (mut a, mut b) = (f_ord(lo), f_ord(hi));
+    let pa = pred(lo);
+    if pa == pred(hi) || a >= b {
+        return None;
+    }
+    let mut seen = vec![lo, hi];
+    while b - a > 1 {
+        let m = a + (b - a) / 2;
+        let x = f_from_ord(m);
+        seen.push(x);
+        if pred(x) == pa {
+            a = m;
+        } else {
+            b = m;
+        }
+    }
+    Some((f_from_ord(a), f_from_ord(b), seen))
+}
+/// the values `x` stepped by -n..=n units in the last place
+pub fn ulp_neighbourhood(x: f64, n: i64) -> Vec<f64> {
+    (-n..=n).map(|k| f_from_ord(f_ord(x) + k)).collect()
+}
+
+/// Twilight-angle frontier of one (site, date): the Fajr (or Isha) angle in [9, 21] at which the
+/// conventional time stops existing, located to adjacent f64s; returns the parameter sets to judge:
+/// every bisection probe plus +-8 ulp around both sides of the flip, plus a geometric approach
+/// (flip - 10^-k degrees, k = 1..=12). None when the event exists for the whole angle range (or for none of it).
+pub fn angle_frontier(site: Site, date: NaiveDate, which: Prayer) -> Option<Vec<Params>> {
+    let make = |a: f64| {
+        let mut p = params_conv(Method::Mwl);
+        p.angles.insert(which, a);
+        p
+    };
+    let (a_ok, a_err, seen) = bisect_flip(9.0, 21.0, |a| pt(&make(a), site.loc(), date, None).get(&which).map(|x| x.is_ok()).unwrap_or(false))?;
+    let mut v: Vec<f64> = seen;
+    v.extend(ulp_neighbourhood(a_ok, 8));
+    v.extend(ulp_neighbourhood(a_err, 8));
+    for k in 1..=12 {
+        v.push(a_ok - 10f64.powi(-k));
+    }
+    v.retain(|a| (9.0..=21.0).contains(a));
+    Some(v.into_iter().map(make).collect())
+}
+/// sites and dates on which a twilight frontier exists inside [9, 21] degrees (high-latitude summer)
+pub fn angle_frontier_cases(quick: bool) -> Vec<(Site, NaiveDate)> {
+    let sites = [Site::new(48.6, 25.0, 0.0, 2.0), Site::new(52.52, 13.4, 34.0, 1.0), Site::new(56.3, -5.0, 0.0, 1.0), Site::new(58.97, 5.73, 0.0, 1.0), Site::new(-53.16, -70.9, 0.0, -3.0), Site::new(60.0, 25.0, 0.0, 2.0), Site::new(-58.2, -26.4, 0.0, -2.0)];
+    let mut v = vec![];
+    for (i, s) in sites.iter().enumerate() {
+        if quick && i % 2 == 1 {
+            continue;
+        }
+        for y in if quick { vec![2024] } else { vec![1600, 2024, 2399] } {
+            let mut d = ymd(y, 1, 1 + (i as u32 % 3));
+            while d.year() == y {
+                v.push((*s, d));
+                d = d + chrono::Duration::days(if quick { 5 } else { 2 });
+            }
+        }
+    }
+    v
+}
+
 pub fn ymd(y: i32, m: u32, d: u32) -> NaiveDate {
     NaiveDate::from_ymd_opt(y, m, d).unwrap()
 }
